@@ -890,6 +890,13 @@ static int parse_data(vnacal_load_state_t *vlsp, const vnacal_layout_t *vlp,
 		    if (parse_double(vlsp, value, &frequency) == -1) {
 			return -1;
 		    }
+		    if (!isfinite(frequency) || frequency < 0.0) {
+			_vnacal_error(vcp, VNAERR_SYNTAX,
+				"%s (line %ld) error: expected a finite "
+				"non-negative frequency",
+				vcp->vc_filename, value->start_mark.line + 1);
+			return -1;
+		    }
 		    break;
 		}
 		break;
